@@ -292,6 +292,14 @@ class ExecutionState:
             next_marker = output.next_marker
         with self._operations_lock:
             self.operations.update({op.operation_id: op for op in all_operations})
+        # Operations that already exist send no START in this invocation, so their parent links
+        # would otherwise be unknown when an ancestor context completes and orphans are marked
+        with self._parent_done_lock:
+            for op in all_operations:
+                if op.parent_id:
+                    if op.parent_id not in self._parent_to_children:
+                        self._parent_to_children[op.parent_id] = set()
+                    self._parent_to_children[op.parent_id].add(op.operation_id)
 
     def track_replay(self, operation_id: str) -> None:
         """Check if operation exists with completed status; if not, transition to NEW status.
